@@ -270,7 +270,7 @@ def check_run(res, rec_name, opts, printf="{id} {start} {end}", time_format="%S"
 
 def core_points():
     pts = []
-    for n, m, s, a, e, d, R in itertools.product((0.02, 0.05), (0.1, 0.3), (0, 0.02), (0.01, 0.02), (50, 65), (0, 1), (0, 1)):
+    for n, m, s, a, e, d, R in itertools.product((0.02, 0.05), (0.1, 0.3), (0, 0.02), (0.01, 0.02), (50, 64.5), (0, 1), (0, 1)):  # -e takes fractional thresholds
         pts.append(dict(n=n, m=m, s=s, a=a, e=e, d=d, R=R))
     return pts
 
@@ -369,6 +369,24 @@ def misc(rep, tier):
                     msg = "-O raw file unreadable: %r" % (exc,)
             if msg:
                 rep.violation("cli -O raw rec=%s input=%s" % (rec, kind), msg, {"kind": "climisc", "what": "-Oraw", "rec": rec, "input": kind})
+            # -T names the format of the saved stream, whatever the file is called
+            for name, fmt in (("stream", "raw"), ("stream.dat", "wav"), ("stream.bin", "raw")):
+                rep.add("evaluations")
+                res = run_cli(argv_from(opts) + ["-O", "<WD>" + name, "-T", fmt], rec, kind, wd)
+                msg = check_run(res, rec, opts)
+                if not msg:
+                    try:
+                        if fmt == "raw":
+                            got = open(os.path.join(wd, name), "rb").read()
+                        else:
+                            with wave.open(os.path.join(wd, name), "rb") as fp:
+                                got = fp.readframes(-1)
+                        if got != data:
+                            msg = "-O %s -T %s: the file holds %d bytes that are not the input's %d as %s" % (name, fmt, len(got), len(data), fmt)
+                    except Exception as exc:
+                        msg = "-O %s -T %s: %r" % (name, fmt, exc)
+                if msg:
+                    rep.violation("cli -O %s -T %s rec=%s input=%s" % (name, fmt, rec, kind), msg, {"kind": "climisc", "what": "-T", "rec": rec, "input": kind})
             # -O naming a format that needs an external encoder; where none can be run the program still prints every
             # detection, keeps the stream as <name>.wav and exits with status 0
             rep.add("evaluations")
